@@ -98,6 +98,7 @@ var cfgs = map[string]cfgDef{
 	"asan":     {"asan", ""},
 	"cover":    {"cover", ""},
 	"fuzz":     {"fuzz", ""},
+	"386":      {"386", ""},
 }
 
 var (
@@ -706,6 +707,10 @@ func build(u *Unit, kind, bin, bdir, overlay string) (string, error) {
 		args = append(args, "-asan")
 	case "fuzz":
 		args = append(args, "-fuzz", "FuzzVerif")
+	case "386":
+		// the 32-bit target (uint is 32 bits wide, no assembly back-ends); the
+		// binary runs natively on the amd64 kernel
+		env = append(env, "GOARCH=386", "CGO_ENABLED=0")
 	case "cover":
 		cp := "./..."
 		if len(coverPkgList) > 0 {
